@@ -477,8 +477,9 @@ class Gen:
             return " " * r.range(2, 4) if r.chance(2, 3) else "\t"
         return " " * n
 
-    def param(self, value, must=False):
-        """maybe write value as ~name~; returns the text to write"""
+    def param(self, value, must=False, pad=False):
+        """maybe write value as ~name~; returns the text to write.  pad: the place is free text, so a -D value may
+        start / end with blanks (the loader trims the text after the substitution)"""
         r = self.rng
         if "~" in value or value == "" or not (must or r.chance(1, 4)):
             return value     # (values with a tilde / empty values: see the known finding)
@@ -489,6 +490,9 @@ class Gen:
             self.param_lines.append("parameter%s%s defaults to %s" % (self.sp(), name, value))
             self.feat.add("parameter: in-file default")
         elif how == 1:      # -D only
+            if pad and r.chance(1, 2):
+                value = " " * r.range(0, 2) + value + r.pick([" ", "  ", "\t", ""])
+                self.feat.add("parameter: -D value with outer blanks")
             self.defines.append("%s=%s" % (name, value))
             self.feat.add("parameter: -D only")
         elif how == 2:      # both: -D wins
@@ -616,7 +620,7 @@ class Gen:
                     self.feat.add("multi-actor cast, plural role")
                 ln = "  %s*%splay%s%s%s%s" % (b, self.sp(), self.sp(), self.param(str(n)), self.sp(), plural)
                 if env:
-                    ln += "%swith%s%s" % (self.sp(), self.sp(), self.param(env))
+                    ln += "%swith%s%s" % (self.sp(), self.sp(), self.param(env, pad=True))
                 lines.append(ln)
                 cls.append(("cast", b, n, plural, env))
                 for i in range(n):
@@ -631,7 +635,7 @@ class Gen:
                 a = r.pick(fa)
                 ln = "  %s%splays%s%s" % (a, self.sp(), self.sp(), self.param(role))
                 if env:
-                    ln += "%swith%s%s" % (self.sp(), self.sp(), self.param(env))
+                    ln += "%swith%s%s" % (self.sp(), self.sp(), self.param(env, pad=True))
                 lines.append(ln)
                 cls.append(("cast", a, None, role, env))
                 self.actors[a] = role
@@ -835,7 +839,7 @@ class Gen:
                 src = "t >= 0"
                 vs.append(("c", "t"))
         elif k < 7:
-            lim = self.param(str(r.range(0, 50)))
+            lim = self.param(str(r.range(0, 50)), pad=True)
             if lim.startswith("~"):
                 self.feat.add("parameter in an expression")
             src = "%s %s %s" % (scalar(), r.pick(["<", "<=", ">", ">=", "=="]), lim)
@@ -857,7 +861,8 @@ class Gen:
         return src, vs
 
     def subst(self, text):
-        return re.sub(r"~(\w+)~", lambda m: self.params[m.group(1)], text)
+        # (the loader trims a text after the substitution)
+        return re.sub(r"~(\w+)~", lambda m: self.params[m.group(1)], text).strip()
 
     def note_obs(self, mem, vs):
         for v in vs:
@@ -1066,7 +1071,7 @@ class Gen:
         k = r.below(3)
         t = r.pick(TITLES)
         if k == 0:
-            w = t + (" " + self.param("part " + str(r.range(1, 9)), must=True) if r.chance(1, 2) else "")
+            w = t + (" " + self.param("part " + str(r.range(1, 9)), must=True, pad=True) if r.chance(1, 2) else "")
             self.block("top", ["title %s" % w], [("title", self.subst(w))])
             self.feat.add("title")
         elif k == 1:
